@@ -15,7 +15,7 @@ from vf.core import Result
 LEVEL = "exploration"
 RULE = (
     "pin: generated PIN texts (0..20 feature columns, 1..200 rows, 1..6 proteins per row, protein column "
-    "last/middle/first-after-ids, +-DefaultDirection line, +-trailing newline, rectangular and ragged); "
+    "last/middle/first-after-ids/very first, +-DefaultDirection line, +-trailing newline, rectangular and ragged); "
     "valid: arbitrary rectangular/ragged tab texts for the validity predicate. Non-trivial = at least one row "
     "with >=2 proteins (pin) / at least 2 data lines (valid); distinct = distinct generated text hash."
 )
@@ -37,7 +37,7 @@ def gen_pin(rng):
     nfeat = int(rng.integers(0, 21))
     nrows = int(rng.choice([1, 2, 3, 5, 20, 200], p=[.15, .15, .15, .2, .25, .1]))
     maxprot = int(rng.integers(1, 7))
-    pos = rng.choice(["last", "middle", "first"])
+    pos = rng.choice(["last", "middle", "first", "zero"])
     head = ["SpecId", "Label", "ScanNr"]
     feats = [f"feat{i}" for i in range(nfeat)]
     tail = ["Peptide"]
@@ -46,6 +46,8 @@ def gen_pin(rng):
         idx = len(cols)
     elif pos == "first":
         idx = len(head)
+    elif pos == "zero":
+        idx = 0  # the protein list opens every line
     else:
         idx = int(rng.integers(len(head), len(cols) + 1))
     cols = cols[:idx] + ["Proteins"] + cols[idx:]
